@@ -685,6 +685,7 @@ def NetOp.WF : NetOp → Prop
   | .add _ l _ => l.Fresh
   | .addFrom ls => ∀ p ∈ ls, p.2.Fresh
   | .replace ls => ∀ p ∈ ls, p.2.Fresh
+  | .replaceErase _ ls => ∀ p ∈ ls, p.2.Fresh
   | .lanTranslateRotate _ _ => False      -- EXCLUDED (refuted in `C11_witness_member_lanelet`): a lanelet the network holds is moved on its own
   | _ => True
 
@@ -780,6 +781,39 @@ theorem Lan.replaced_fresh {l : Lan} (h : l.Fresh) : l.replaced.Fresh := by
   obtain ⟨h1, h2, h3⟩ := h
   simp [Lan.replaced, Lan.Fresh, Action.apply, Action.applySimple, h2, h3]
 
+theorem Net.removeOne_fresh {n : Net} (h : n.Fresh) (id : Nat) (rtree : Bool) : (n.removeOne id rtree).Fresh := by
+  obtain ⟨hb, hl⟩ := h
+  cases hg : assocGet id n.lanelets with
+  | none => cases rtree <;> simpa [Net.removeOne, hg, Net.reindex, Net.Fresh, Net.freshEntries] using And.intro hb hl
+  | some l0 =>
+    have : ({ n with lanelets := assocErase id n.lanelets, buffered := assocErase id n.buffered } : Net).Fresh := by
+      refine ⟨?_, fun p hp => hl p (mem_assocErase hp)⟩
+      simp only [Net.freshEntries, hb]
+      exact (assocErase_map (fun l : Lan => l.xy) id n.lanelets).symm
+    cases rtree <;> simpa [Net.removeOne, hg, Net.reindex, Net.Fresh, Net.freshEntries] using this
+
+/-- `remove_lanelet` with the default `rtree=True` leaves a fresh index whatever the index was before. -/
+theorem Net.removeOne_index {n : Net} (h : n.Fresh) (id : Nat) : (n.removeOne id true).IndexFresh := by
+  have hf := (Net.removeOne_fresh h id true).1
+  unfold Net.IndexFresh
+  cases hg : assocGet id n.lanelets <;> simpa [Net.removeOne, hg, Net.reindex, Net.freshEntries] using hf
+
+/-- `Scenario.remove_lanelet` (single or list form), ALSO WHEN IT RAISES HALF WAY: every removal it did perform rebuilt the tree,
+    so the network it leaves has fresh buffered polygons and (if the index was fresh before) a fresh index. -/
+theorem Net.removeMany_fresh : ∀ (ids : List (Nat × Bool)) {n : Net}, n.Fresh →
+    (n.removeMany ids).2.Fresh ∧ (n.IndexFresh → (n.removeMany ids).2.IndexFresh)
+  | [], _, h => ⟨h, id⟩
+  | (i, reg) :: r, n, h => by
+    unfold Net.removeMany
+    cases hg : assocGet i n.lanelets with
+    | none => exact ⟨h, id⟩
+    | some l0 =>
+      cases reg with
+      | false => exact ⟨Net.removeOne_fresh h i true, fun _ => Net.removeOne_index h i⟩
+      | true =>
+        have ih := Net.removeMany_fresh r (Net.removeOne_fresh h i true)
+        exact ⟨ih.1, fun _ => ih.2 (Net.removeOne_index h i)⟩
+
 /-- C11 invariant for the lanelet network, part 1: every completed public mutator (also with `rtree=False`) and every
     query keeps `_buffered_polygons` equal to the polygons of the current lanelets and every lanelet cache fresh. -/
 theorem C11_net_fresh_step {n : Net} (h : n.Fresh) (op : NetOp) (hwf : op.WF) (hc : n.completes op) : (n.step op).2.Fresh := by
@@ -789,15 +823,8 @@ theorem C11_net_fresh_step {n : Net} (h : n.Fresh) (op : NetOp) (hwf : op.WF) (h
   | addFrom ls =>
     simp only [Net.step, Net.reindex_addFrom]
     exact (Net.createTree_index (Net.addAll_fresh ls true ⟨hb, hl⟩ hwf)).1
-  | remove id rtree =>
-    cases hg : assocGet id n.lanelets with
-    | none => cases rtree <;> simpa [Net.step, hg, Net.reindex, Net.Fresh, Net.freshEntries] using And.intro hb hl
-    | some l0 =>
-      have : ({ n with lanelets := assocErase id n.lanelets, buffered := assocErase id n.buffered } : Net).Fresh := by
-        refine ⟨?_, fun p hp => hl p (mem_assocErase hp)⟩
-        simp only [Net.freshEntries, hb]
-        exact (assocErase_map (fun l : Lan => l.xy) id n.lanelets).symm
-      cases rtree <;> simpa [Net.step, hg, Net.reindex, Net.Fresh, Net.freshEntries] using this
+  | remove id rtree => exact Net.removeOne_fresh ⟨hb, hl⟩ id rtree
+  | removeMany ids => exact (Net.removeMany_fresh ids ⟨hb, hl⟩).1
   | translateRotate v =>
     simp only [Net.step]
     cases hm : moveAll v n.lanelets with
@@ -837,6 +864,18 @@ theorem C11_net_fresh_step {n : Net} (h : n.Fresh) (op : NetOp) (hwf : op.WF) (h
     simp only [Net.step, Net.reindex, act_networkIndex_netReplace, List.mem_map] at hp
     obtain ⟨q, hq, rfl⟩ := hp
     exact Lan.replaced_fresh (hwf q hq)
+  | replaceErase unreg ls =>
+    simp only [Net.step]
+    split
+    · next e n' he =>
+      have := (Net.removeMany_fresh (n.lanelets.map fun p => (p.1, !unreg.contains p.1)) (n := n) ⟨hb, hl⟩).1
+      rw [he] at this
+      exact this
+    · refine ⟨by simp [Net.reindex, Net.freshEntries], ?_⟩
+      intro p hp
+      simp only [Net.reindex, act_networkIndex_netReplace, List.mem_map] at hp
+      obtain ⟨q, hq, rfl⟩ := hp
+      exact Lan.replaced_fresh (hwf q hq)
   | failed e => exact ⟨hb, hl⟩
   | deepcopy => simpa [Net.step, Net.reindex, Net.createTree, Net.Fresh, Net.freshEntries] using And.intro hb hl
   | pickle => simpa [Net.step, Net.reindex, Net.createTree, Net.Fresh, Net.freshEntries] using And.intro hb hl
@@ -891,7 +930,8 @@ theorem C11_net_index_step {n : Net} (h : n.Fresh) (hi : n.IndexFresh) (op : Net
   | remove id rtree =>
     simp only [NetOp.noSuspend] at hs
     subst hs
-    cases hg : assocGet id n.lanelets <;> simpa [Net.step, hg, Net.reindex, Net.freshEntries] using hf
+    exact Net.removeOne_index ⟨hb, hl⟩ id
+  | removeMany ids => exact (Net.removeMany_fresh ids ⟨hb, hl⟩).2 hi
   | translateRotate v =>
     simp only [Net.step] at hf ⊢
     cases hm : moveAll v n.lanelets with
@@ -918,6 +958,14 @@ theorem C11_net_index_step {n : Net} (h : n.Fresh) (hi : n.IndexFresh) (op : Net
       simp [Net.reindex, Net.freshEntries, hi, this]
   | createFrom => simp [Net.step, Net.reindex, Net.freshEntries]
   | replace ls => simp [Net.step, Net.reindex, Net.freshEntries]
+  | replaceErase unreg ls =>
+    simp only [Net.step]
+    split
+    · next e n' he =>
+      have := (Net.removeMany_fresh (n.lanelets.map fun p => (p.1, !unreg.contains p.1)) (n := n) ⟨hb, hl⟩).2 hi
+      rw [he] at this
+      exact this
+    · simp [Net.reindex, Net.freshEntries]
   | failed e => exact hi
   | deepcopy => simpa [Net.step, Net.reindex, Net.createTree, Net.freshEntries] using hb
   | pickle => simpa [Net.step, Net.reindex, Net.createTree, Net.freshEntries] using hb
@@ -949,7 +997,7 @@ theorem C11_net_index_rebuilt {n : Net} (h : n.Fresh) (op : NetOp) (hc : n.compl
   obtain ⟨hb, hl⟩ := h
   unfold Net.IndexFresh
   rcases hop with ⟨id, rfl⟩ | ⟨v, rfl⟩ | rfl | rfl
-  · cases hg : assocGet id n.lanelets <;> simpa [Net.step, hg, Net.reindex, Net.freshEntries] using hf
+  · exact Net.removeOne_index ⟨hb, hl⟩ id
   · simp only [Net.step] at hf ⊢
     cases hm : moveAll v n.lanelets with
     | mk ls e =>
@@ -1091,7 +1139,8 @@ theorem C11_witness_obs_history_full : ¬ C11_obs_history_full := by
 def Net.Admissible0 : Net → List NetOp → Prop
   | _, [] => True
   | n, op :: ops =>
-    (match op with | .add _ l _ => l.Fresh | .addFrom ls => ∀ p ∈ ls, p.2.Fresh | .replace ls => ∀ p ∈ ls, p.2.Fresh | _ => True) ∧ n.completes op ∧
+    (match op with | .add _ l _ => l.Fresh | .addFrom ls => ∀ p ∈ ls, p.2.Fresh | .replace ls => ∀ p ∈ ls, p.2.Fresh
+                   | .replaceErase _ ls => ∀ p ∈ ls, p.2.Fresh | _ => True) ∧ n.completes op ∧
     op.noSuspend = true ∧ Net.Admissible0 (n.step op).2 ops
 
 /-- The FULL statement for lanelet networks. -/
@@ -1147,5 +1196,161 @@ example : (⟨[(1, Lan.new 0 false)], [(1, 0)], some [(1, 0)]⟩ : Net).Admissib
     [.qFind, .translateRotate 1, .add 2 (Lan.new 2 true) true, .pickle] := by
   refine ⟨trivial, fun e => Or.inr (fun v => by simp), rfl, trivial, fun e => Or.inl (fun h => by cases h), rfl,
     ⟨rfl, Or.inl rfl, Or.inl rfl⟩, fun e => Or.inr (fun v => by simp), rfl, trivial, fun e => Or.inr (fun v => by simp), rfl, trivial⟩
+
+/-! ## (h) two networks alive side by side: a network derived from another one through a public factory / copy / adder -/
+
+theorem syncShared_nil (src dst : List (Nat × Lan)) : syncShared [] src dst = dst := by
+  simp [syncShared]
+
+/-- FRAME: while the two networks share no lanelet object, an operation on one of them is `Net.step` there, leaves the other
+    network exactly as it was, and nothing becomes shared. -/
+theorem C11_duo_frame (d : Duo) (h : d.shared = []) (s : Side) (op : NetOp) :
+    (d.step s op).1 = ((d.side s).step op).1 ∧ (d.step s op).2.shared = [] ∧
+    (d.step s op).2.side s = ((d.side s).step op).2 ∧ (∀ t, t ≠ s → (d.step s op).2.side t = d.side t) := by
+  cases s with
+  | a =>
+    refine ⟨rfl, by simp [Duo.step, h], rfl, ?_⟩
+    intro t ht
+    cases t with
+    | a => exact absurd rfl ht
+    | b => simp [Duo.step, Duo.side, h, syncShared_nil]
+  | b =>
+    refine ⟨rfl, by simp [Duo.step, h], rfl, ?_⟩
+    intro t ht
+    cases t with
+    | b => exact absurd rfl ht
+    | a => simp [Duo.step, Duo.side, h, syncShared_nil]
+
+/-- The operations addressed to one side, in order. -/
+def opsOf (s : Side) (ops : List (Side × NetOp)) : List NetOp := (ops.filter (fun p => p.1 = s)).map (fun p => p.2)
+
+/-- INDEPENDENCE: without shared lanelet objects each network ends where its OWN operations alone would have taken it — the
+    history of the sibling is invisible to it (its lanelets, buffered polygons and tree, hence every answer). -/
+theorem C11_duo_independent : ∀ (ops : List (Side × NetOp)) (d : Duo), d.shared = [] → ∀ s : Side,
+    (d.run ops).2.side s = ((d.side s).run (opsOf s ops)).2
+  | [], _, _, _ => rfl
+  | (t, op) :: r, d, h, s => by
+    have fr := C11_duo_frame d h t op
+    have ih := C11_duo_independent r (d.step t op).2 fr.2.1 s
+    simp only [Duo.run]
+    rw [ih]
+    by_cases hts : t = s
+    · subst hts
+      simp [opsOf, Net.run, fr.2.2.1]
+    · have : s ≠ t := fun e => hts e.symm
+      simp [opsOf, hts, fr.2.2.2 s this]
+
+/-- Both networks are coherent and share nothing. -/
+structure Duo.Good (d : Duo) : Prop where
+  sh : d.shared = []
+  fa : d.a.Fresh
+  ia : d.a.IndexFresh
+  fb : d.b.Fresh
+  ib : d.b.IndexFresh
+
+theorem C11_duo_step_good {d : Duo} (g : d.Good) (s : Side) (op : NetOp) (hwf : op.WF) (hc : (d.side s).completes op)
+    (hs : op.noSuspend = true) : (d.step s op).2.Good := by
+  have fr := C11_duo_frame d g.sh s op
+  cases s with
+  | a =>
+    have ha : (d.step .a op).2.a = (d.a.step op).2 := fr.2.2.1
+    have hb : (d.step .a op).2.b = d.b := fr.2.2.2 .b (by decide)
+    exact ⟨fr.2.1, by rw [ha]; exact C11_net_fresh_step g.fa op hwf hc, by rw [ha]; exact C11_net_index_step g.fa g.ia op hwf hc hs,
+      by rw [hb]; exact g.fb, by rw [hb]; exact g.ib⟩
+  | b =>
+    have hb : (d.step .b op).2.b = (d.b.step op).2 := fr.2.2.1
+    have ha : (d.step .b op).2.a = d.a := fr.2.2.2 .a (by decide)
+    exact ⟨fr.2.1, by rw [ha]; exact g.fa, by rw [ha]; exact g.ia,
+      by rw [hb]; exact C11_net_fresh_step g.fb op hwf hc, by rw [hb]; exact C11_net_index_step g.fb g.ib op hwf hc hs⟩
+
+/-- Every operation of a two-network history is well formed, completes, and does not ask for a stale index (as `Net.Admissible`,
+    for the network the operation is called on). -/
+def Duo.Admissible : Duo → List (Side × NetOp) → Prop
+  | _, [] => True
+  | d, (s, op) :: ops => op.WF ∧ (d.side s).completes op ∧ op.noSuspend = true ∧ Duo.Admissible (d.step s op).2 ops
+
+theorem C11_duo_run : ∀ (ops : List (Side × NetOp)) {d : Duo}, d.Good → d.Admissible ops → (d.run ops).2.Good
+  | [], _, g, _ => g
+  | (s, op) :: ops, d, g, ha => by
+    obtain ⟨a1, a2, a3, a4⟩ := ha
+    have := C11_duo_run ops (C11_duo_step_good g s op a1 a2 a3) a4
+    simpa [Duo.run] using this
+
+/-- Every COPYING derivation — `create_from_lanelet_list` with either value of `cleanup_ids`, `create_from_lanelet_network`,
+    deepcopy, pickle — of a coherent network yields a coherent network that shares no lanelet with its source. -/
+theorem C11_derive_copy_good {n : Net} (h : n.Fresh) (hi : n.IndexFresh) (dv : Derive) (hd : dv.shares = false) :
+    (Duo.derive n dv).Good := by
+  have hc : ∀ op : NetOp, (∀ v, op ≠ .translateRotate v) → n.completes op := fun op ho e => Or.inr ho
+  have h1 := C11_net_fresh_step h .createFrom trivial (hc _ (by simp))
+  have i1 := C11_net_index_step h hi .createFrom trivial (hc _ (by simp)) rfl
+  have h2 := C11_net_fresh_step h .deepcopy trivial (hc _ (by simp))
+  have i2 := C11_net_index_step h hi .deepcopy trivial (hc _ (by simp)) rfl
+  have h3 := C11_net_fresh_step h .pickle trivial (hc _ (by simp))
+  have i3 := C11_net_index_step h hi .pickle trivial (hc _ (by simp)) rfl
+  cases dv with
+  | addFrom => simp [Derive.shares] at hd
+  | fromList c => exact ⟨by simp [Duo.derive, Derive.shares], h, hi, h1, i1⟩
+  | fromNetwork => exact ⟨by simp [Duo.derive, Derive.shares], h, hi, h1, i1⟩
+  | deepcopy => exact ⟨by simp [Duo.derive, Derive.shares], h, hi, h2, i2⟩
+  | pickle => exact ⟨by simp [Duo.derive, Derive.shares], h, hi, h3, i3⟩
+
+/-- The FULL statement for two networks: whatever the derivation, after any admissible history on the two networks every query on
+    either of them answers as on a network rebuilt from that network's current lanelets. -/
+def C11_duo_history_full : Prop :=
+  ∀ (n : Net) (pre : List NetOp), n.rebuild.Admissible pre → ∀ (dv : Derive) (ops : List (Side × NetOp)),
+    (Duo.derive (n.rebuild.run pre).2 dv).Admissible ops → ∀ (s : Side) (q : NetOp),
+    (q = .qFind ∨ (∃ id, q = .qPoly id) ∨ (∃ id, q = .qDist id) ∨ (∃ id, q = .qInner id)) →
+    ((((Duo.derive (n.rebuild.run pre).2 dv).run ops).2.side s).step q).1 =
+      ((((Duo.derive (n.rebuild.run pre).2 dv).run ops).2.side s).rebuild.step q).1
+
+/-- PARTIAL (excluded: the derivation that hands the source's own lanelet objects to the second network,
+    `b.add_lanelets_from_network(a)` — refuted in `C11_witness_shared_lanelets`).  For a second network made by
+    `create_from_lanelet_list(a.lanelets, cleanup_ids)` (BOTH values of `cleanup_ids`), `create_from_lanelet_network(a)`, deepcopy
+    or pickle, at any point of an admissible history of the source, and any admissible history of operations on the two networks
+    afterwards: every lookup, polygon and distance query on EITHER network answers as on a network rebuilt from its own lanelets. -/
+theorem C11_duo_history_as_fresh_partial (n : Net) (pre : List NetOp) (hpre : n.rebuild.Admissible pre) (dv : Derive)
+    (hd : dv.shares = false) (ops : List (Side × NetOp)) (ha : (Duo.derive (n.rebuild.run pre).2 dv).Admissible ops)
+    (s : Side) (q : NetOp) (hq : q = .qFind ∨ (∃ id, q = .qPoly id) ∨ (∃ id, q = .qDist id) ∨ (∃ id, q = .qInner id)) :
+    ((((Duo.derive (n.rebuild.run pre).2 dv).run ops).2.side s).step q).1 =
+      ((((Duo.derive (n.rebuild.run pre).2 dv).run ops).2.side s).rebuild.step q).1 := by
+  have h0 := C11_net_run pre n.rebuild_spec.1 n.rebuild_spec.2.1 hpre
+  have g := C11_duo_run ops (C11_derive_copy_good h0.1 h0.2 dv hd) ha
+  cases s with
+  | a => exact C11_net_query_as_rebuilt g.fa g.ia q hq
+  | b => exact C11_net_query_as_rebuilt g.fb g.ib q hq
+
+/-- WITNESS (real on the code, known finding `…/stale-after/LaneletNetwork.translate_rotate(sibling-sharing-lanelets)`):
+    `b = LaneletNetwork(); b.add_lanelets_from_network(a)` holds a's lanelet objects; `a.translate_rotate` moves them; b's index
+    still holds the polygon of version 0, b rebuilt from its (moved) lanelets the one of version 1 — while a itself is fresh,
+    and a copying derivation leaves b where it was. -/
+theorem C11_witness_shared_lanelets :
+    (((Duo.derive witnessNet.rebuild .addFrom).run [(.a, .translateRotate 1)]).2.b.step .qFind).1 = .index [(1, 0)] ∧
+    (((Duo.derive witnessNet.rebuild .addFrom).run [(.a, .translateRotate 1)]).2.b.rebuild.step .qFind).1 = .index [(1, 1)] ∧
+    (((Duo.derive witnessNet.rebuild .addFrom).run [(.a, .translateRotate 1)]).2.a.step .qFind).1 = .index [(1, 1)] ∧
+    (((Duo.derive witnessNet.rebuild (.fromList false)).run [(.a, .translateRotate 1)]).2.b.rebuild.step .qFind).1 = .index [(1, 0)] := by
+  decide
+
+theorem ne_err_of_eq_unit {a : NetAns} (h : a = .unit) (e : Err) : a ≠ .err e := by
+  subst h
+  exact fun h => nomatch h
+
+theorem C11_witness_duo_history_full : ¬ C11_duo_history_full := by
+  intro h
+  have := h witnessNet [] trivial .addFrom [(.a, .translateRotate 1)]
+    ⟨trivial, fun e => Or.inl (ne_err_of_eq_unit (by decide) e), rfl, trivial⟩ .b .qFind (Or.inl rfl)
+  simp only [Net.run, Duo.side] at this
+  rw [C11_witness_shared_lanelets.1, C11_witness_shared_lanelets.2.1] at this
+  exact absurd this (by decide)
+
+example : (Duo.derive witnessNet.rebuild (.fromList false)).Admissible
+    [(.b, .translateRotate 1), (.a, .qFind), (.a, .add 2 (Lan.new 2 false) true), (.b, .qFind)] := by
+  refine ⟨trivial, fun e => Or.inl (ne_err_of_eq_unit (by decide) e), rfl, trivial, fun e => Or.inr (fun v => by simp), rfl,
+    ⟨rfl, Or.inl rfl, Or.inl rfl⟩, fun e => Or.inr (fun v => by simp), rfl, trivial, fun e => Or.inr (fun v => by simp), rfl, trivial⟩
+
+/-- `Scenario.remove_lanelet([1, 7])` removes lanelet 1, then raises KeyError for the unknown 7: the index answers without 1. -/
+example :
+    let n : Net := ⟨[(1, Lan.new 0 false), (2, Lan.new 0 false)], [(1, 0), (2, 0)], some [(1, 0), (2, 0)]⟩
+    (n.run [.qFind, .removeMany [(1, true), (7, true), (2, true)], .qFind]).1 = [.index [(1, 0), (2, 0)], .err .key, .index [(2, 0)]] := by
+  decide
 
 end CR.Cache
